@@ -11,7 +11,7 @@ import (
 
 func init() { Registry["C14"] = runC14 }
 
-var multPool = []string{"1", "2", "3", "9", "0x2", "0xA", "10", "57"}
+var multPool = []string{"1", "2", "3", "6", "9", "0x2", "0xA", "0xb", "10", "57"}
 
 // c14List generates a step/item list with commas anywhere, multipliers,
 // explicit terminators anywhere and poryswitch parts.
@@ -47,7 +47,7 @@ func c14List(k *h.Case, g *spec.Gen, movement bool, maxLen, depth int, allowBig 
 			case r.IntN(12) == 0 && depth == 0:
 				e.Name = "," // a stray comma (ignored by the grammar)
 			default:
-				e.Name = []string{"walk_left", "walk_right", "walk_up", "walk_down", "face_player", "delay_16", "jump_2_left", "ステップ"}[r.IntN(8)]
+				e.Name = []string{"walk_left", "walk_right", "walk_up", "walk_down", "face_player", "delay_16", "delay_1", "jump_2_left", "ステップ", "walk_1", "walk_12"}[r.IntN(11)]
 			}
 			if e.Name != "," {
 				if r.IntN(3) == 0 {
